@@ -9,3 +9,7 @@ mod c18;
 mod c15;
 #[cfg(kani)]
 mod c04;
+#[cfg(kani)]
+mod c14;
+#[cfg(kani)]
+mod c03;
